@@ -10,7 +10,7 @@ from lib import core, engine
 from lib.engine import Spec
 from lib.core import Case
 
-ESIZES = [1, 2, 3, 4, 8, 16, 64]
+ESIZES = [1, 2, 3, 4, 8, 16, 64, 12, 9, 20]   # incl. sizes above 8 that are not multiples of 8 (word-wise swap tails)
 SELECTORS = [0, 1, 2, 3, 4, 17, -1]          # the four named algorithms + out-of-range values
 
 
@@ -73,7 +73,7 @@ class C11(Spec):
     trusted = ['modelled, not verified: the C statements of src/array.c lines 15-361 are transcribed by hand into '
                'SortModel.v (lists with checked indices; size_t indices as nat, ssize_t/int indices as Z with explicit '
                'width); cstl_swap is modelled as an exchange of two list positions (its byte-level effect is compared '
-               'on explored inputs for element sizes 1,2,3,4,8,16,64)',
+               'on explored inputs for element sizes 1,2,3,4,8,9,12,16,20,64)',
                'arrays of more than 2^31 elements (F11) cannot be materialised in the model: for those the runner prints '
                'what theorems reverse_correct / search_correct state and the non-sanitized driver is compared with that']
     assumptions_text = ['the comparison callback is a total preorder (sign-antisymmetric, transitive), element size >= 1',
@@ -207,7 +207,7 @@ class C11(Spec):
                     ops = ['search %d' % p for p in (0, 1, 2, 3, 4)] + ['vsearch 1', 'vsearch 3', 'find 3', 'reverse']
                     for mode in (0, 1):
                         cases.append(Case('bs%d_%d_m%d' % (n, cut, mode),
-                                          ['esize %d' % ESIZES[(n + cut) % 7]] + arr_lines(keys) + ['cmpmode %d' % mode], ops, 'closure'))
+                                          ['esize %d' % ESIZES[(n + cut) % len(ESIZES)]] + arr_lines(keys) + ['cmpmode %d' % mode], ops, 'closure'))
                         nops += len(ops)
         return cases, dict(states=cnt + st.get('states', 0), transitions=nops, closed=True,
                            max_len=maxlen, max_len_all_draws=rlen)
@@ -435,7 +435,7 @@ MANIFEST = dict(
          'a sorted permutation, no access leaves the (sub)array; QUICK_R the same for every rand() whenever it returns, '
          'with termination under the stated no-endless-retry hypothesis; binary search / linear find / reverse meet their '
          'specifications for count <= SSIZE_MAX. Tied to the C code on every run by differential execution '
-         '(all small arrays, every pivot-draw sequence, adversarial large inputs; 7 element sizes) under ASan/UBSan, '
+         '(all small arrays, every pivot-draw sequence, adversarial large inputs; 10 element sizes) under ASan/UBSan, '
          'comparing the complete callback log.',
     note='trusted: Coq kernel; hand transcription of array.c into SortModel.v validated only by the correspondence run; '
          'size_t index arithmetic modelled in nat (no wrap below 2^63 elements); byte-level cstl_swap compared, not proved; '
